@@ -60,6 +60,14 @@ SEQUENCES = {t: [[list(a), list(b)] for a, b in p] + [[list(b), list(a)] for a, 
 
 DTYPES = ("int64", "int32", "float32")      # besides float64
 
+# call-size family: the number of spectrum entries (rows x bins) handed over in ONE call is
+# stepped to just above every listed size, and so is the number of centre frequencies
+SIZE_GRIDS = {"quick": [(8, 0.01)], "thorough": [(8, 0.01), (9, 0.05), (16, 0.01)]}
+ENTRY_LADDER = {"quick": [2 ** k for k in range(8, 21, 2)] + [10 ** k for k in (3, 4, 5, 6)],
+                "thorough": [2 ** k for k in range(8, 23)] + [10 ** k for k in (3, 4, 5, 6)]}
+CENTRE_LADDER = {"quick": [2 ** k for k in (6, 8, 10, 12)] + [1000],
+                 "thorough": [2 ** k for k in range(6, 15)] + [1000, 10000]}
+
 
 # ---------------------------------------------------------------------------
 # the enumerated space
@@ -70,21 +78,48 @@ def grid(n, dt):
 
 def bandwidths(op, df):
     """Three bandwidths per operator: typical, wide, one that empties most windows.
-    Savitzky-Golay additionally gets the even point counts that must be refused."""
+    Savitzky-Golay additionally gets the even point counts that must be refused; the
+    kernels in log-frequency additionally get the bandwidth whose half-width is exactly
+    one decade, so that samples can lie EXACTLY on a window end (for the linear kernels
+    3.0 bins already does that)."""
     if op == "konno_and_ohmachi":
-        return [40.0, 10.0, 300.0]
+        return [40.0, 10.0, 300.0, 3.0]     # 3.0: half-width exactly one decade (exact window ends)
     if op == "parzen":                      # chosen through the support half-width in bins
         return [RK.SQRT6 * RK.PARZEN_A / (m * df) for m in (2.5, 7.3, 0.4)]
     if op in ("linear_rectangular", "linear_triangular"):
         return [m * df for m in (3.0, 7.3, 0.7)]        # 3.0: midpoints sit exactly on the limit
     if op in ("log_rectangular", "log_triangular"):
-        return [0.2, 1.0, 0.02]
+        return [0.2, 1.0, 0.02, 2.0]        # 2.0: half-width exactly one decade (exact window ends)
     if op == SG:
         return [5, 3, 9, 4, 2]
     raise KeyError(op)
 
 
-def fc_vectors(f):
+def window_end_centres(f, op, bw):
+    """Centres that put a bin on an END of their window: for every bin k >= 1 (first and
+    last included) the centre whose window starts at f[k] (for the last bin that centre lies
+    above the grid) and the centre whose window stops at f[k] (for the first bin it lies
+    below the grid).  Computed in floating point from the half-width; whether the tie is
+    exact is decided by the reference in rational arithmetic (else it is knife-edge).
+    Savitzky-Golay has no window in Hz: the bins at which the window starts / stops fitting."""
+    nf = len(f)
+    if op == SG:
+        h = (int(bw) - 1) // 2
+        ks = sorted({k for k in (h, h + 1, nf - 1 - h, nf - h) if 0 <= k < nf})
+        return [float(f[k]) for k in ks]
+    hw = RK.half_width(op, float(bw))
+    out = []
+    for k in range(1, nf):
+        fk = float(f[k])
+        if RK._is_log(op):
+            p = 10.0 ** hw
+            out += [fk * p, fk / p]
+        else:
+            out += [fk + hw, fk - hw]
+    return out
+
+
+def fc_vectors(f, op=None, bw=None):
     """Named centre-frequency vectors for grid f (f[0] == 0)."""
     nf = len(f)
     df = float(f[1])
@@ -102,10 +137,13 @@ def fc_vectors(f):
     vec["single"] = [float(f[nf // 2]) + 0.3 * df]
     allv = vec["grid"] + vec["mid"] + vec["off"] + vec["edge"]
     vec["all-reversed"] = allv[::-1]
+    if op is not None:
+        vec["window-ends"] = window_end_centres(f, op, bw)
     return vec
 
 
-VECTOR_NAMES = ["grid", "grid-warp", "mid", "mid-warp", "off", "edge", "single", "all-reversed"]
+VECTOR_NAMES = ["grid", "grid-warp", "mid", "mid-warp", "off", "edge", "single", "all-reversed",
+                "window-ends"]
 
 
 def fc_class(f, fc):
@@ -234,7 +272,8 @@ class Case:
         if c is not None:
             d["fc_index"] = int(c)
             d["fc"] = float(self.fcs[c])
-            d["fcs"] = [float(x) for x in self.fcs] if len(self.fcs) <= 12 else "fc_vectors(frequencies)[fc_vector]"
+            d["fcs"] = ([float(x) for x in self.fcs] if len(self.fcs) <= 12 or "+" in self.vname
+                        else "fc_vectors(frequencies, op, bandwidth)[fc_vector]")
         d.update(kw)
         return d
 
@@ -290,6 +329,12 @@ def judge(case, impl, out, ctx):
         elif all(not s for s in ref_supps):
             kind, text = "matrix-empty-window-nonzero", \
                 "no sample lies inside the window (or fc < 1e-6) but the output is not zero"
+        elif info["ends"] and any(s - supp and s - supp <= set(info["ends"]) and not supp - s
+                                  for s in ref_supps):
+            kind, text = "matrix-window-end-excluded", \
+                ("a sample lying EXACTLY on an end of the window (tie exact in rational arithmetic "
+                 "on the given doubles) was left out although the window is closed and every other "
+                 "contributing sample was used")
         elif supp not in ref_supps:
             kind, text = "matrix-support", \
                 "the set of contributing samples differs from the kernel's support"
@@ -300,7 +345,7 @@ def judge(case, impl, out, ctx):
                 "the normalised weights differ from the published kernel shape"
         report(cls, kind, c, dict(reference_row=alts[0], admissible_rows=len(alts)),
                row.tolist(), text + " (row of the weight matrix recovered from unit impulses)",
-               certain=info["certain"], knife=info["knife"])
+               certain=info["certain"], knife=info["knife"], exact_window_ends=info["ends"])
 
     # (2) constant spectra are reproduced exactly where the window is not empty
     for name in ("const1", "const7.25", "const1e-3"):
@@ -505,13 +550,13 @@ def dtype_family(case, impl, out, ctx):
 def run_case(root, p, vname, f, fcs, S, names, ctx, tier):
     op, bw = p["op"], p["bw"]
     fcs = np.array(fcs, dtype=float)
-    infos = [RK.row_info(op, f, fc, bw) for fc in fcs]
+    infos = [RK.row_info(op, f, fc, bw, closed_ends=True) for fc in fcs]
     case = Case(root, p, vname, f, fcs, S, names, infos)
     ctx.count("states")
 
     # statistics that show which parts of the oracle this case exercises
     multi = 0
-    for info in infos:
+    for fc, info in zip(fcs, infos):
         a0 = info["alternatives"][0]
         nz = sum(1 for v in a0 if v != 0.0)
         if nz == 0:
@@ -527,6 +572,12 @@ def run_case(root, p, vname, f, fcs, S, names, ctx, tier):
             ctx.count("centres_with_dc_in_reach")
         if op == SG and info["certain"]:
             ctx.count("sg_centres_window_fits")
+        if info["ends"]:
+            ctx.count("exact_window_end:" + op)
+            if fc > f[-1] and len(f) - 1 in info["ends"]:
+                ctx.count("exact_window_end_last_bin_centre_above_grid")
+            if fc < f[1] and 1 in info["ends"]:
+                ctx.count("exact_window_end_first_bin_centre_below_grid")
     if multi:
         seq = (str(root["grids"]), p["leg"]) if case.in_sequence else ()
         ctx.nontrivial_case((op, p["n"], p["dt"], bw, vname) + seq)
@@ -569,6 +620,111 @@ def run_case(root, p, vname, f, fcs, S, names, ctx, tier):
                           expected=float(b[r, c]), observed=float(a[r, c]),
                           explanation=case.text("the compiled kernel and its interpreted source "
                                                 "(.py_func) return different values"))
+
+
+def run_call_size(root, ctx, tier):
+    """How much is handed over in one call must not matter.
+
+    One (grid, operator, bandwidth); centres = edge + grid + mid vectors (so 0 Hz is in
+    reach of some windows, some windows are empty, some centres lie outside the grid).
+    The ordinary stack (all unit impulses + 7 rows, DC amplitude non-zero in several rows)
+    is smoothed once and judged completely against the reference (``judge``).  Then
+      * the stack is repeated cyclically to R rows, R x bins just above every size of
+        ENTRY_LADDER: row i of the result must be row i mod rows of the small call;
+      * the centre vector is repeated cyclically to just above every length of
+        CENTRE_LADDER: column j must be column j mod centres of the small call;
+    bit for bit (the statement: every row is smoothed independently of the other rows;
+    per row and centre the same arithmetic runs), compiled and interpreted."""
+    op = root["op"]
+    f = grid(root["n"], root["dt"])
+    nf = len(f)
+    bw = bandwidths(op, float(f[1]))[root["bw_index"]]
+    p = dict(n=root["n"], dt=root["dt"], op=op, bw=bw, bw_index=root["bw_index"])
+    S, names = spectrum_stack(f)
+    nrows = S.shape[0]
+    vecs = fc_vectors(f, op, bw)
+    fcs = np.array(vecs["edge"] + vecs["grid"] + vecs["mid"], dtype=float)
+    nfc = len(fcs)
+    infos = [RK.row_info(op, f, fc, bw, closed_ends=True) for fc in fcs]
+    case = Case(root, p, "edge+grid+mid", f, fcs, S, names, infos)
+    ctx.count("states")
+    if any(info["dc_in_reach"] for info in infos) and float(S[:, 0].max()) > 0.0:
+        ctx.count("call_size_cases_with_dc_in_reach")
+    ctx.nontrivial_case(("call-size", op, root["n"], root["dt"], bw))
+    for impl in ("compiled", "interpreted"):
+        out = call(op, impl, f, S, fcs, bw)
+        ctx.count("transitions")
+        if _raised(out):
+            ctx.violation(_key(case, impl, case.vname, "raises"), root, detail=case.detail(impl),
+                          observed=list(out),
+                          explanation="the operator raised where the reference expects values")
+            continue
+        if judge(case, impl, out, ctx) is None:
+            continue
+        out = np.ascontiguousarray(out)
+        out_bits = out.view(np.uint64)
+        for size in ENTRY_LADDER[tier]:
+            R = size // nf + 1                      # R * nf > size >= (R - 1) * nf
+            big = np.ascontiguousarray(S[np.arange(R) % nrows])
+            got = call(op, impl, f, big, fcs, bw)
+            ctx.count("transitions")
+            ctx.count("large_stack_calls_compared")
+            ctx.notes["largest_stack_entries"] = max(ctx.notes.get("largest_stack_entries", 0), int(big.size))
+            how = (f"S = spectrum_stack(frequencies)[0]; spectrum = S[np.arange({R}) % {nrows}] "
+                   f"({R} rows x {nf} bins = {R * nf} entries > {size}); "
+                   "SMOOTHING_OPERATORS[op](frequencies, spectrum, np.array(fcs), bandwidth)")
+            if _raised(got) or np.shape(got) != (R, nfc):
+                ctx.violation(_key(case, impl, "large-stack", "raises-or-shape"), root,
+                              detail=case.detail(impl, rows=R, entries=R * nf, how=how),
+                              expected=[R, nfc], observed=list(got) if _raised(got) else list(np.shape(got)),
+                              explanation="the operator raised / returned another shape on a large stack")
+                continue
+            gb = np.ascontiguousarray(got, dtype=float).view(np.uint64)
+            bad = None
+            for r in range(nrows):
+                d = gb[r::nrows] != out_bits[r]
+                if d.any():
+                    i, c = [int(v[0]) for v in np.nonzero(d)]
+                    bad = (r + i * nrows, r, c)
+                    break
+            if bad:
+                i, r, c = bad
+                ctx.violation(_key(case, impl, fc_class(f, fcs[c]), "stack-size-dependence"), root,
+                              detail=case.detail(impl, c, rows=R, entries=R * nf, row_in_large_stack=i,
+                                                 same_row_in_small_stack=r, small_stack_rows=nrows, how=how),
+                              expected=float(out[r, c]), observed=float(got[i, c]),
+                              explanation="a spectrum row smoothed inside a large stack differs (bitwise) "
+                                          "from the same row smoothed inside a small stack (whose result "
+                                          "agrees with the reference): the result for a row depends on how "
+                                          "many other rows are in the call")
+        for size in CENTRE_LADDER[tier]:
+            M = size + 1
+            sel = np.arange(M) % nfc
+            got = call(op, impl, f, S, fcs[sel], bw)
+            ctx.count("transitions")
+            ctx.count("long_centre_vector_calls_compared")
+            how = (f"fcs = np.array(fcs)[np.arange({M}) % {nfc}]; spectrum = spectrum_stack(frequencies)[0]; "
+                   "SMOOTHING_OPERATORS[op](frequencies, spectrum, fcs, bandwidth)")
+            if _raised(got) or np.shape(got) != (nrows, M):
+                ctx.violation(_key(case, impl, "long-centre-vector", "raises-or-shape"), root,
+                              detail=case.detail(impl, centres=M, how=how),
+                              expected=[nrows, M], observed=list(got) if _raised(got) else list(np.shape(got)),
+                              explanation="the operator raised / returned another shape for a long "
+                                          "centre-frequency vector")
+                continue
+            gb = np.ascontiguousarray(got, dtype=float).view(np.uint64)
+            d = gb != out_bits[:, sel]
+            if d.any():
+                r, j = [int(v[0]) for v in np.nonzero(d)]
+                c = int(sel[j])
+                ctx.violation(_key(case, impl, fc_class(f, fcs[c]), "centre-count-dependence"), root,
+                              detail=case.detail(impl, c, centres=M, column_in_long_vector=j,
+                                                 spectrum_row_index=r, how=how),
+                              expected=float(out[r, c]), observed=float(got[r, j]),
+                              explanation="the value at a centre frequency differs (bitwise) between a long "
+                                          "centre-frequency vector and a short one containing the same centre")
+        ctx.outcome(("call-size", op, impl, core.arr_digest(out)))
+    ctx.count("validated")
 
 
 def run_refusal(root, p, vname, f, fcs, S, ctx):
@@ -617,6 +773,13 @@ def roots(tier, seed):
         for op in OPS:
             for i in range(len(bandwidths(op, 1.0))):
                 out.append(dict(kind="grid-sequence", grids=grids, op=op, bw_index=i))
+    # the amount handed over in one call (rows x bins, number of centres)
+    for n, dt in SIZE_GRIDS[tier]:
+        for op in OPS:
+            for i, bw in enumerate(bandwidths(op, 1.0)):
+                if op == SG and int(bw) % 2 == 0:
+                    continue
+                out.append(dict(kind="call-size", n=n, dt=dt, op=op, bw_index=i))
     return out
 
 
@@ -624,7 +787,7 @@ def _run_grid(root, p, ctx, tier):
     """The complete oracle for one (grid, operator, bandwidth)."""
     f = grid(p["n"], p["dt"])
     S, names = spectrum_stack(f)
-    vecs = fc_vectors(f)
+    vecs = fc_vectors(f, p["op"], p["bw"])
     even = p["op"] == SG and int(p["bw"]) % 2 == 0
     for vname in VECTOR_NAMES:
         if even:
@@ -634,7 +797,9 @@ def _run_grid(root, p, ctx, tier):
 
 
 def run_root(root, ctx, tier):
-    if root.get("kind") == "grid-sequence":
+    if root.get("kind") == "call-size":
+        run_call_size(root, ctx, tier)
+    elif root.get("kind") == "grid-sequence":
         nfs = set()
         for leg, (n, dt) in enumerate(root["grids"]):
             f = grid(n, dt)
@@ -655,7 +820,12 @@ NONVACUITY = ["centres_empty_window", "centres_averaging_2plus_samples", "centre
               "bounds_compared", "cubic_values_compared", "linearity_values_compared",
               "stack_calls_compared", "compiled_vs_interpreted_values",
               "dtype_values_compared", "dtype_linearity_values_compared",
-              "sequence_legs", "sequences_same_size_and_first_bin"]
+              "sequence_legs", "sequences_same_size_and_first_bin",
+              "exact_window_end:konno_and_ohmachi", "exact_window_end:linear_rectangular",
+              "exact_window_end:log_rectangular", "exact_window_end_last_bin_centre_above_grid",
+              "exact_window_end_first_bin_centre_below_grid",
+              "large_stack_calls_compared", "long_centre_vector_calls_compared",
+              "call_size_cases_with_dc_in_reach"]
 
 
 def finalize(ctx, tier):
@@ -685,7 +855,8 @@ def describe(tier):
              "bandwidth indices: the complete oracle above is run for the first grid and then, in the "
              "same process, for the second.  A case (op, grid, bandwidth, vector[, sequence, leg]) is "
              "non-trivial if at least one centre averages >= 2 samples",
-        bounds=dict(grids=[list(x) for x in g], operators=len(OPS), bandwidths_per_operator=3,
+        bounds=dict(grids=[list(x) for x in g], operators=len(OPS), bandwidths_per_operator="3 (+1 with a half-width of exactly one decade for konno_and_ohmachi, "
+                                           "log_rectangular, log_triangular)",
                     fc_vectors=len(VECTOR_NAMES), spectrum_rows="n//2+1 impulses + 7",
                     spectrum_dtypes=["float64"] + list(DTYPES), integer_rows=7,
                     grid_sequences=SEQUENCES[tier], grids_per_sequence=2),
@@ -694,9 +865,15 @@ def describe(tier):
             "supports are pinned to DESIGN C02: KO |log10 f/fc| <= 3/b, Parzen |f-fc| <= sqrt(6)a/b, "
             "rectangular/triangular +-b/2, Savitzky-Golay m bins around the nearest bin and only where the "
             "window fits above the 0 Hz bin; f < 1e-6 and fc < 1e-6 excluded",
-            "a sample within 1e-9 (relative) of a support limit may be inside or outside, a Savitzky-Golay "
-            "centre within 1e-9 of the middle between two bins may go to either bin: every admissible row "
-            "is accepted (counted as knife_edge)",
+            "a sample within 1e-9 (relative) of a support limit may be inside or outside - EXCEPT a sample "
+            "exactly on the end of a konno_and_ohmachi / linear_rectangular / log_rectangular window (tie "
+            "exact in rational arithmetic on the given doubles), which is inside because the pinned support "
+            "is closed; a Savitzky-Golay centre within 1e-9 of the middle between two bins (the exact middle "
+            "included: neither bin is nearer, the statement names no tie rule) may go to either bin: every "
+            "admissible row is accepted (counted as knife_edge)",
+            "exact window ends: IEEE subtraction / division of the tied doubles is exact; for the lower end "
+            "of a log window the implementation's limit 10**-k is assumed to be the correctly rounded double "
+            "(true of the libm in use; checked implicitly - otherwise the unchanged tree would be reported)",
             "weights are compared with rtol 1e-9 plus 1e-13 absolute on row-normalised weights; "
             "compiled vs interpreted with rtol 1e-12 plus 1e-15 absolute",
             "row independence is judged bit for bit (same code path, element-wise arithmetic per row)",
@@ -719,4 +896,23 @@ _describe_base = describe
 def describe(tier):     # noqa: F811 - the base description plus what later rounds added to the space
     d = _describe_base(tier)
     d["rule"] = d["rule"] + " " + 'The centre vectors grid-warp and mid-warp have the same length and the same first / last value as the vector evaluated before them and other interior values.'
+    d["rule"] += (" Window ends: a ninth centre vector per (operator, bandwidth) puts every bin k >= 1 on the lower "
+                  "and on the upper END of a window (fc = f_k +- b/2 resp. f_k 10^(+-half-width); for the last bin "
+                  "the centre lies above the grid, for the first bin below it; Savitzky-Golay: the bins where the "
+                  "window starts / stops fitting); konno_and_ohmachi, log_rectangular and log_triangular get a "
+                  "fourth bandwidth whose half-width is exactly one decade (b = 3 resp. 2), so that with the "
+                  "3.0-bin bandwidth of the linear kernels every windowed operator meets EXACT ties; a sample "
+                  "exactly on a window end must contribute (oracle matrix-window-end-excluded). "
+                  "Call-size roots: grid x operator x every (odd) bandwidth, centres edge + grid + mid: the "
+                  "ordinary stack is judged completely, then repeated cyclically to R rows with R x bins just "
+                  "above every size of entry_ladder (row i must equal row i mod rows of the small call, bit for "
+                  "bit: oracle stack-size-dependence) and the centre vector is repeated cyclically to just above "
+                  "every length of centre_ladder (oracle centre-count-dependence); compiled and interpreted.")
+    d["bounds"].update(call_size_grids=[list(g) for g in SIZE_GRIDS[tier]],
+                       entry_ladder=ENTRY_LADDER[tier], centre_ladder=CENTRE_LADDER[tier])
+    d["assumptions"].append(
+        "call size: only sizes just above the listed powers of two / ten are entered (largest: "
+        f"{max(ENTRY_LADDER[tier])} spectrum entries, {max(CENTRE_LADDER[tier])} centres), on grids of 5-9 bins; "
+        "a dependence on the size of the call that sets in above the largest size, only inside a band "
+        "between two ladder steps, or only for long frequency grids is outside the bound")
     return d
